@@ -281,6 +281,14 @@ func (db *DB) AcquireHaltLock(ctx context.Context, lockID int64) (_ *HaltLock, r
 	return &other, nil
 }
 
+// HoldsHaltLock returns true if lockID identifies the halt lock that is
+// currently granted on this database. While it is granted, the write lock is
+// held on behalf of the remote holder.
+func (db *DB) HoldsHaltLock(lockID int64) bool {
+	curr := db.haltLockAndGuard.Load().(*haltLockAndGuard)
+	return curr != nil && curr.haltLock.ID == lockID
+}
+
 // This is a marker error and should not be propagated to the client.
 var errHaltLockAlreadyAcquired = errors.New("litefs: halt lock already acquired")
 
